@@ -636,8 +636,8 @@ impl CpcSketch {
             kxp = (1u64 << lg_k) as f64;
         }
 
-        let uncompressed = compressed.uncompress(lg_k, num_coupons);
-        Ok(CpcSketch {
+        let uncompressed = compressed.uncompress(lg_k, num_coupons)?;
+        let sketch = CpcSketch {
             lg_k,
             seed,
             seed_hash,
@@ -649,7 +649,41 @@ impl CpcSketch {
             merge_flag: !has_hip,
             kxp,
             hip_est_accum,
-        })
+        };
+        if !sketch.coupon_count_is_consistent() {
+            return Err(Error::deserial(
+                "corrupted: coupon count does not match window and table",
+            ));
+        }
+        Ok(sketch)
+    }
+
+    /// Whether num_coupons equals the number of bits that window and table represent
+    /// (computed without building the bit matrix).
+    fn coupon_count_is_consistent(&self) -> bool {
+        let k = 1u64 << self.lg_k;
+        let offset = self.window_offset as u32;
+        let mut count = k * offset as u64; // the early zone is all ones by default
+        count += self
+            .sliding_window
+            .iter()
+            .map(|b| b.count_ones() as u64)
+            .sum::<u64>();
+        let mut early_zeros = 0u64;
+        for &row_col in self.surprising_value_table().slots() {
+            if row_col != u32::MAX {
+                let col = row_col & 63;
+                if col < offset {
+                    early_zeros += 1;
+                } else if self.sliding_window.is_empty() || col >= offset + 8 {
+                    count += 1;
+                } else {
+                    // a surprising value inside the window cannot exist
+                    return false;
+                }
+            }
+        }
+        early_zeros <= count && count - early_zeros == self.num_coupons as u64
     }
 
     fn write_hip(&self, bytes: &mut SketchBytes) {
